@@ -61,6 +61,10 @@ CHECKS = {
    technique="TLA+ specs Gmrf.tla (first-difference form = quadratic form of the weighted tridiagonal precision matrix, exact rationals) and Coalescent.tla (per-piece sufficient statistics regroup the interval terms) model-checked with TLC; emitted cases replayed into GMRF(), precision_matrix(), sufficient_statistics(); integrated priors against numerical integration of the defining products",
    text="TLC proves S(x) = x'Qx for every field of length 2..4 (thorough 5) over {-2..2} and every weight vector over {1,2,1/4} (50k states) and emits cases with exact S and Q; real GMRF densities (plain, weighted), the published precision matrix (entries and quadratic form), time-aware variants on random time trees with and without root-height rescaling, random fields up to length 50; GMRFGammaIntegrated (plain, weighted, batched) and ConstantCoalescentIntegrated vs mpmath quadrature; sufficient statistics and coalescent counts of both piecewise-constant coalescents vs the TLC-checked per-piece sums, single and batched.",
    note="Level exploration: the TLA+ part is the algebraic identity and the regrouping; densities with log/lgamma leaves are numeric. GMRFCovariate only through the shared precision matrix."),
+ "C16": dict(level="model_checking", design="4/C16",
+   technique="TLA+ spec Leapfrog.tla (the integrator on quadratic potentials, exact rationals: reversibility and determinant 1 of the linear map by Leibniz) model-checked with TLC; emitted exact end points replayed into the real LeapfrogIntegrator on Gaussian joints from shipped distributions (forward, then reverse on the same objects); HMCOperator.step against recorded momenta incl. failing and retried trials; geometric identities on non-quadratic targets",
+   text="TLC proves Flow o Negate o Flow = Negate and det = 1 exactly for 48 lattice cases (dimension 1-2, diagonal / dense SPD potentials and inverse masses, step sizes 1/2 and 1/4, 1-3 steps); the real integrator must hit the exact end point (1e-12) and return to the start when run again with the negated momentum on the same Parameter objects; HMCOperator.step() must return K0 - K1 of the momentum of the successful trial and restart every retried trial from the saved position (90 retried steps in the quick tier on an untransformed gamma target); for Gaussian, log-gamma and mixed 8-dimensional targets with random SPD masses, step sizes 1e-3..0.2 and up to 12 (thorough 30) steps: round trip, Jacobian determinant of the flow, energy-error order.",
+   note="32-bit TLC integers bound the exact lattice (small L, eps >= 1/4); volume preservation on non-quadratic targets uses central finite differences of the real flow (tolerance 1e-5); acceptance on the full Hamiltonian difference is decided together with C15's C_Decision / C_HastingsRatio clauses."),
 }
 
 PENDING = {}
